@@ -284,12 +284,33 @@ func c18R2(c *Ctx) {
 		}
 		return true
 	})
-	if loop == nil || loop.Key == nil || loop.Value == nil {
+	// the element variable: the range value, or a local bound to (the address of) list[i]
+	elemName := ""
+	if loop != nil && loop.Key != nil {
+		if loop.Value != nil {
+			elemName = exprString(loop.Value)
+		} else {
+			for _, st := range loop.Body.List {
+				as, ok := st.(*ast.AssignStmt)
+				if !ok || as.Tok != token.DEFINE || len(as.Lhs) != 1 || len(as.Rhs) != 1 {
+					continue
+				}
+				r := ast.Unparen(as.Rhs[0])
+				if u, ok := r.(*ast.UnaryExpr); ok && u.Op == token.AND {
+					r = ast.Unparen(u.X)
+				}
+				if ix, ok := r.(*ast.IndexExpr); ok && exprString(ix.X) == exprString(loop.X) && exprString(ix.Index) == exprString(loop.Key) {
+					elemName = exprString(as.Lhs[0])
+				}
+			}
+		}
+	}
+	if loop == nil || loop.Key == nil || elemName == "" {
 		c.Bad("C18.R2", "validation loop", p.Pos(fn.Decl), fn.Key(), "for i, n := range networks.PodNetworks { …Denied… }", "not found")
 		return
 	}
 	list := exprString(loop.X)
-	nv := exprString(loop.Value)
+	nv := elemName
 	// the uniqueness set insert
 	var insert *ast.CallExpr
 	ast.Inspect(loop.Body, func(nd ast.Node) bool {
